@@ -91,6 +91,9 @@ func libEffects(x *ssa.Call) ([]string, bool) {
 	case "(*bytes.Buffer).Bytes", "(*bytes.Buffer).Len", "(*bytes.Buffer).String", "sort.Search":
 		return nil, true
 	}
+	if strings.HasSuffix(name, "slices.BinarySearch") {
+		return nil, true
+	}
 	if strings.HasSuffix(name, "slices.Insert") || strings.HasSuffix(name, "slices.Grow") || strings.HasSuffix(name, "slices.Delete") {
 		if sl, ok := x.Call.Args[0].Type().Underlying().(*types.Slice); ok {
 			return []string{elemHeapPrefix(sl.Elem())}, true
@@ -305,6 +308,27 @@ func (f *FuncVC) libCall(st *State, x *ssa.Call, args []*Val) (*Val, bool) {
 			vInt(f.sc.define("gcap", "Int", ite(fits, sv.Fs[3].T, newCap)), nil)}}
 		r.Fs[2].Lo = big.NewInt(0)
 		return r, true
+	}
+	if strings.HasSuffix(name, "slices.BinarySearch") && len(args) == 2 && args[0].K == KSlice && args[1].K == KInt {
+		// slices.BinarySearch(s, x) on an integer slice: pure; the position lies
+		// in [0, len(s)], and a reported hit is a real one (nothing is claimed
+		// for unsorted input beyond that, which is what the real function gives)
+		f.usedAssumed["slices.BinarySearch: pure; 0 <= idx <= len(s); found implies idx < len(s) && s[idx] == target"] = true
+		r := f.freshTyped(st, resTy, "bsearch")
+		if r.K == KTuple && len(r.Fs) == 2 {
+			sv := args[0]
+			et := sv.Ty.Underlying().(*types.Slice).Elem()
+			names, sorts, _ := elemLeaves(et)
+			idx, found := r.Fs[0].T, r.Fs[1].T
+			f.fact(st, and(cmp("<=", "0", idx), cmp("<=", idx, sv.Fs[2].T)))
+			if len(names) == 1 {
+				h := f.heap(st, names[0], arraySort(2, sorts[0]))
+				f.fact(st, implies(found, and(cmp("<", idx, sv.Fs[2].T), eq(sel(sel(h, sv.Fs[0].T), arith("+", sv.Fs[1].T, idx)), args[1].T))))
+			} else {
+				f.fact(st, implies(found, cmp("<", idx, sv.Fs[2].T)))
+			}
+			return r, true
+		}
 	}
 	if strings.HasSuffix(name, "slices.Delete") && len(args) == 3 && args[0].K == KSlice {
 		// slices.Delete(s, i, j): removes s[i:j] in place
